@@ -6,6 +6,7 @@ import os
 import shutil
 import sys
 import tempfile
+import threading
 import warnings
 
 VERIF = os.path.dirname(os.path.dirname(os.path.dirname(os.path.abspath(__file__))))
@@ -58,14 +59,57 @@ def subdir(name):
     return d
 
 
+_tl = threading.local()
+_quiet_main = [0]
+
+
+class _Router(io.TextIOBase):
+    """sys.stdout / sys.stderr for the whole run: what a thread writes while it is inside quiet() - or what any other thread writes while
+    the MAIN thread is inside quiet() (the library's worker threads) - is dropped; everything else reaches the real stream.  Swapping
+    sys.stdout itself is not safe here: a conversion thread that outlives the block that started it (a hung pipeline under test) would
+    put a dead buffer back and the verdict lines of the check would be lost."""
+
+    def __init__(self, real):
+        self.real = real
+
+    def write(self, s):
+        if getattr(_tl, 'depth', 0) > 0 or (_quiet_main[0] > 0 and threading.current_thread() is not threading.main_thread()):
+            return len(s)
+        return self.real.write(s)
+
+    def flush(self):
+        try:
+            self.real.flush()
+        except Exception:
+            pass
+
+    def fileno(self):
+        return self.real.fileno()
+
+    def isatty(self):
+        return False
+
+    @property
+    def encoding(self):
+        return getattr(self.real, 'encoding', 'utf-8')
+
+
+if not isinstance(sys.stdout, _Router):
+    sys.stdout, sys.stderr = _Router(sys.stdout), _Router(sys.stderr)
+
+
 @contextlib.contextmanager
 def quiet():
-    """Silence the library's progress prints and warnings."""
-    out, err = sys.stdout, sys.stderr
-    sys.stdout, sys.stderr = io.StringIO(), io.StringIO()
+    """Silence the library's progress prints and warnings (per thread; see _Router)."""
+    is_main = threading.current_thread() is threading.main_thread()
+    _tl.depth = getattr(_tl, 'depth', 0) + 1
+    if is_main:
+        _quiet_main[0] += 1
     try:
         with warnings.catch_warnings():
             warnings.simplefilter('ignore')
             yield
     finally:
-        sys.stdout, sys.stderr = out, err
+        _tl.depth -= 1
+        if is_main:
+            _quiet_main[0] -= 1
